@@ -351,6 +351,37 @@ class ProjectRegistriesAndRunNames(Contract):
                     break
         out.append({"name": "bounded_run_names_fresh_increasing_and_latest_exact", "ok": bad is None, "case": f"{n} (listing, name) pairs: all subsets of size <= {max_k} of {len(alphabet)} folder names", "function": "ProjectResultRegistry", "witness": None if bad is None else {"listing": list(bad[0]), "name": bad[1], "why": bad[2]}, "detail": "exhaustive enumeration on real directories (bounded stand-in)"})
 
+        # ---- the latest-result lookups of the Project facade: a name given with or without run suffix resolves to the most
+        # recent run folder of exactly that result (never to another result's run, never to the results folder itself);
+        # a result without any run is a ValueError
+        from glotaran.project import Project
+
+        bad2, n2 = None, 0
+        with tempfile.TemporaryDirectory() as d:
+            root = Path(d) / "proj"
+            listing = ["test_run_0000", "test_run_0001", "test_run_0010", "testx_run_0000", "other_run_0003", "te_run_0007"]
+            for nm in listing:
+                (root / "results" / nm).mkdir(parents=True)
+            with warnings.catch_warnings():
+                warnings.simplefilter("ignore")
+                proj = Project.open(root)
+                proj._result_registry._loader = lambda path, *a, **k: path  # load_* then hand back the folder they resolved
+                table = {"test": "test_run_0010", "test_run_0000": "test_run_0010", "test_run_0010": "test_run_0010", "testx": "testx_run_0000", "testx_run_0000": "testx_run_0000",
+                         "other": "other_run_0003", "other_run_0003": "other_run_0003", "te": "te_run_0007", "nope": ValueError, "nope_run_0000": ValueError, "tes": ValueError}
+                for name, want in table.items():
+                    for fname in ("get_latest_result_path", "load_latest_result"):
+                        n2 += 1
+                        try:
+                            got = getattr(proj, fname)(name)
+                            got = Path(got).name if Path(got) != root / "results" else "<the results folder itself>"
+                        except ValueError:
+                            got = ValueError
+                        except Exception as e:
+                            got = repr(e)
+                        if got != want:
+                            bad2 = bad2 or {"listing": listing, "call": f"Project.{fname}({name!r})", "resolved": str(got), "expected": str(want)}
+        out.append({"name": "bounded_project_latest_result_lookups_resolve_to_the_most_recent_run_of_that_result", "ok": bad2 is None and n2 > 0, "case": f"{n2} lookups with and without run suffix", "function": "glotaran.project.project:Project.get_latest_result_path", "witness": bad2, "detail": "decision table on a real project folder (bounded stand-in)"})
+
         # ---- generated / imported files: written only if absent or allow_overwrite; ignore_existing short-circuits
         bad = None
         n = 0
